@@ -91,7 +91,7 @@ func c01Universe(variant int) pongo2.Context {
 		"arrmap": map[[2]int]string{{1, 2}: "pair"}, "i64map": map[int64]string{1: "one"}, "nsmap": map[ZStrStr]int{"k": 1}, "ptrmap": map[*int]int{pone: 1}, "pi": pone, "nilpi": (*int)(nil), "psmap": map[*c01S]string{}, "errmap": map[error]int{}, "anymap": map[any]int{"k": 1, 2: 2},
 		"ifmap": map[fmt.Stringer]int{ZIntStr(1): 1}, "sl1": []int{7}, "sl2": []int{1, 2}, "arr2": [2]int{1, 2}, "i64": int64(1), "ns": ZStrStr("k"),
 		// a context key that clashes with a macro exported by a helper file
-		"imp_box": "clash",
+		"imp_box": "clash", "selfname": "/root.tpl",
 	}
 	for k, v := range extra {
 		ctx[k] = v
@@ -208,7 +208,7 @@ var c01Vocab = func() []string {
 		"(", ")", "[", "]", ",", ".", "|", ":", "=", "+", "-", "*", "/", "%", "^", "==", "!=", "<>", "<", ">", "<=", ">=", "&&", "||", "!",
 		"and", "or", "not", "in", "true", "false", "as", "export", "with", "only", "if_exists", "reversed", "sorted", "silent", "parsed", "fake", "random", "w", "p", "b", "on", "off", "nil",
 		"0", "1", "2", "7", "10", "1000", "100000", "100001", "99999999999999999999", "1.5", "0.0",
-		`"a"`, `""`, `"1:2"`, `":"`, `"-1:"`, `"%d"`, `"a,b"`, `"a,b,c"`, `"x y z"`, `'q'`, `"`, `'`, `\`, `"\""`, `"/lazy.tpl"`, `"/part.tpl"`, `"/macros.tpl"`, `"/base.tpl"`, `"nope"`, "\x00", "\x01", "\xff",
+		`"a"`, `""`, `"1:2"`, `":"`, `"-1:"`, `"%d"`, `"a,b"`, `"a,b,c"`, `"x y z"`, `'q'`, `"`, `'`, `\`, `"\""`, `"/lazy.tpl"`, `"/part.tpl"`, `"/macros.tpl"`, `"/base.tpl"`, `"/root.tpl"`, `"nope"`, "\x00", "\x01", "\xff",
 		"text", "<a> <b>", "openblock", "2000000000", "-2000000000", "Super", "Counter", "Parentloop", "version", "imp_box", "imp_row", "content", "side",
 		"Name", "priv", "In", "PIn", "Nilp", "Any", "M", "F", "privf", "Hello", "PHello", "Var", "Val", "A", "List", "String", "V"}
 	v = append(v, c01Names...)
@@ -522,6 +522,20 @@ func genC01(t *rapid.T) *c01Case {
 		if drawInt(t, 0, 5, "ext") == 0 {
 			src = `{% extends "/base.tpl" %}{% block content %}` + src + `{% endblock %}`
 		}
+		if drawInt(t, 0, 7, "circle") == 0 {
+			// templates that refer to themselves or to each other in a circle: "whatever the
+			// template asks for" - loading must end (with an error), not kill the process
+			cs.Files["/ring1.tpl"] = pick(t, "ring1", []string{`r1{% include "/ring2.tpl" %}`, `{% extends "/ring2.tpl" %}`, `r1{% include selfname %}`, `{% import "/ring2.tpl" rm %}r1`, `r1{% ssi "/ring2.tpl" parsed %}`})
+			cs.Files["/ring2.tpl"] = pick(t, "ring2", []string{`r2{% include "/root.tpl" %}`, `{% extends "/root.tpl" %}`, `r2{% include "/ring1.tpl" if_exists %}`, `{% macro rm() export %}x{% endmacro %}{% import "/ring1.tpl" rm as rm2 %}`, `r2{% ssi "/root.tpl" parsed %}`})
+			ref := pick(t, "circleref", []string{`{% include "/root.tpl" %}`, `{% include "/root.tpl" if_exists %}`, `{% include selfname %}`, `{% include selfname if_exists %}{% include selfname if_exists %}`, `{% ssi "/root.tpl" parsed %}`,
+				`{% import "/root.tpl" selfm %}`, `{% include "/ring1.tpl" %}`, `{% ssi "/ring1.tpl" parsed %}`, `{% import "/ring1.tpl" rm %}`, `{% for q in sl %}{% include "/root.tpl" %}{% endfor %}`})
+			switch drawInt(t, 0, 3, "circlekind") {
+			case 0:
+				src = pick(t, "selfext", []string{`{% extends "/root.tpl" %}`, `{% extends "/ring1.tpl" %}`, `{% extends "root.tpl" %}`}) + src
+			default:
+				src = src + ref
+			}
+		}
 		cs.Files["/root.tpl"] = src
 		if drawInt(t, 0, 3, "mutate") == 0 {
 			cs.Muts = genC01Muts(t, 2)
@@ -546,7 +560,7 @@ func genC01(t *rapid.T) *c01Case {
 var _ = register(&propSpec{
 	ID:    "C01.total",
 	Journ: true,
-	Rule:  "three layers against a set whose loader serves an acyclic library of helper files: grammar programs over every registered tag / filter (registry hook) and operator with error-prone constructs and the full value universe as context (nil, strings incl. invalid UTF-8 / NUL, every int/uint width incl. extremes, floats incl. NaN/Inf/-0/subnormal, bools, slices, arrays by value and pointer incl. empty, maps with string/int/uint8/any/bool/float/struct keys incl. nil map, structs with exported/unexported/embedded/pointer/chan/func fields, nil pointers, pointer to pointer, Stringers, time, *Value safe/unsafe/nil, funcs of every accepted and several unaccepted shapes incl. nil func, chan, complex, error, uintptr) - also installed as Globals; a crude grammar mixing path steps, subscripts, calls and filters freely; random lexeme soup; each optionally with 1-3 token-level mutations (delete, duplicate, swap, replace, insert from the lexeme vocabulary, truncate the arguments of one tag after its first k tokens). Compiled through FromFile (2/3) or another entry point of the set (FromCache, FromString, FromBytes, RenderTemplateFile/String/Bytes, plus ExecuteBlocks). Oracle: compile returns exactly one of (template, *Error); Execute / Render* return output or an error; no panic; the worker survives (journal); no case exceeds the 30 s hang bound. Non-trivial: the source compiled (so execution ran); distinct by source+configuration.",
+	Rule:  "three layers against a set whose loader serves an acyclic library of helper files: grammar programs over every registered tag / filter (registry hook) and operator with error-prone constructs and the full value universe as context (nil, strings incl. invalid UTF-8 / NUL, every int/uint width incl. extremes, floats incl. NaN/Inf/-0/subnormal, bools, slices, arrays by value and pointer incl. empty, maps with string/int/uint8/any/bool/float/struct keys incl. nil map, structs with exported/unexported/embedded/pointer/chan/func fields, nil pointers, pointer to pointer, Stringers, time, *Value safe/unsafe/nil, funcs of every accepted and several unaccepted shapes incl. nil func, chan, complex, error, uintptr) - also installed as Globals; a crude grammar mixing path steps, subscripts, calls and filters freely, now and then with templates that include / extend / import / ssi themselves or each other in a circle (static names, names computed at run time, rings of three files); random lexeme soup; each optionally with 1-3 token-level mutations (delete, duplicate, swap, replace, insert from the lexeme vocabulary, truncate the arguments of one tag after its first k tokens). Compiled through FromFile (2/3) or another entry point of the set (FromCache, FromString, FromBytes, RenderTemplateFile/String/Bytes, plus ExecuteBlocks). Oracle: compile returns exactly one of (template, *Error); Execute / Render* return output or an error; no panic; the worker survives (journal); no case exceeds the 30 s hang bound. Non-trivial: the source compiled (so execution ran); distinct by source+configuration.",
 	Gen:   func(t *rapid.T) any { return genC01(t) },
 	New:   func() any { return &c01Case{} },
 	Check: checkC01,
